@@ -161,4 +161,6 @@ def run(tier):
     hmcstep.run_part(ck, tier)
     ownership_part(ck, tier)
     pt_part(ck, tier)
+    from harness import repotests
+    repotests.run_part(ck, "C03")          # traces of the repository's own MCMC tests, judged by TestRunTrace.tla
     return ck.finish()
